@@ -75,10 +75,10 @@ func (c *clientApp) setDefaults() (err error) {
 		c.conf.PollAttempts = 10
 	}
 	if c.conf.PollInterval == 0 {
-		c.conf.PollInterval = 60
+		c.conf.PollInterval = time.Second * 60
 	}
 	if c.conf.PollDelay == 0 {
-		c.conf.PollDelay = 5
+		c.conf.PollDelay = time.Second * 5
 	}
 	if c.conf.PollMaxCount == 0 {
 		c.conf.PollMaxCount = 1000
